@@ -348,6 +348,12 @@ func runC10(r *Run) {
 		c := map[string]string{"input": s, "input_hex": hx(s)}
 		var ev *bexpr.Evaluator
 		var everr error
+		if r.Evaluations%20 == 0 {
+			// a creation under a budget that suffices for it, right before: nothing of that budget may be left for the next creation
+			if _, err := bexpr.CreateEvaluator("a == 1", bexpr.WithMaxExpressions(1000)); err != nil {
+				r.Violate("create-evaluator-verdict", "budgeted-before|"+s, map[string]string{"input": "a == 1"}, "a budget of 1000 steps does not suffice for `a == 1`: "+err.Error())
+			}
+		}
 		func() {
 			defer func() {
 				if p := recover(); p != nil {
